@@ -30,11 +30,11 @@ ASSUMPTIONS = [
 REACH = {"quick": {"op:aggregate": 2000, "op:count": 500, "op:split": 500, "op:modify": 500, "na-key": 1000, "multi-col": 1000,
                    "twin-compared": 1000, "tag:float_hostile": 100, "after-inplace-edit": 500, "tag:big": 8}}
 
-GKINDS = ["int", "str", "float", "bool", "date", "datetime", "lstr", "ustr", "obool", "float", "str", "timedelta", "uint64", "int", "int_be", "datetime_be", "float_be"]
+GKINDS = ["int", "str", "float", "bool", "date", "datetime", "lstr", "ustr", "obool", "float", "str", "timedelta", "uint64", "int", "int_be", "datetime_be", "float_be", "oint"]
 HELPERS = [("all", {}), ("any", {}), ("count", {}), ("count", {"drop_na": True}), ("count_unique", {}), ("count_unique", {"drop_na": True}),
            ("first", {}), ("first", {"drop_na": True}), ("last", {}), ("last", {"drop_na": True}), ("nth", {"index": 1}), ("nth", {"index": -2}),
            ("min", {}), ("max", {}), ("min", {"drop_na": False}), ("mode", {}), ("mean", {}), ("mean", {"drop_na": False}),
-           ("median", {}), ("quantile", {"q": 0.25}), ("std", {}), ("std", {"ddof": 1}), ("var", {}), ("var", {"ddof": 1}), ("sum", {}), ("sum", {"drop_na": False})]
+           ("median", {}), ("median", {"drop_na": False}), ("quantile", {"q": 0.25}), ("quantile", {"q": 0.5, "drop_na": False}), ("std", {}), ("std", {"ddof": 1}), ("var", {}), ("var", {"ddof": 1}), ("sum", {}), ("sum", {"drop_na": False})]
 
 def generate(rng, tier):
     tags = set()
@@ -141,9 +141,20 @@ def execute(case):
             else:
                 short = f("x", *args, **kws)
             twin = lambda d: f(d.x, *args, **kws)
-            out = df.group_by(*by).aggregate(n=di.count(), ids=lambda d: ",".join(map(str, d._rid_.tolist())), y=short, y2=twin,
-                                             k=lambda d: d.nrow)
+            xlist = dict.__getitem__(df, "x").tolist()
+            # xs / ids2 come AFTER the helper in the same call: every summary sees the group's rows in their original order, whatever ran before it
+            summaries = dict(n=di.count(), ids=lambda d: ",".join(map(str, d._rid_.tolist())), y=short, y2=twin,
+                             k=lambda d: d.nrow, xs=lambda d: ",".join(map(repr, d.x.tolist())), ids2=lambda d: ",".join(map(str, d._rid_.tolist())))
+            if nrow % 2 == 0:
+                # the shorthand helper runs first, before any lambda has looked at the group-wise subsets
+                summaries = dict(y=summaries.pop("y"), **summaries)
+                res.cls("aggregate:helper-first")
+            out = df.group_by(*by).aggregate(**summaries)
             oc = canon.frame_cells(out)
+            if list(oc) == by + list(summaries):
+                oc = {k_: oc[k_] for k_ in by + ["n", "ids", "y", "y2", "k", "xs", "ids2"]}
+            xs_got = [c[1] if c != canon.NA else "" for c in oc.pop("xs", [])]
+            ids2_got = [c[1] if c != canon.NA else "" for c in oc.pop("ids2", [])]
             if list(oc) != by + ["n", "ids", "y", "y2", "k"]:
                 res.violate("aggregate:wrong-columns", f"{list(oc)}; {ctx}")
                 return res.dict()
@@ -152,6 +163,11 @@ def execute(case):
                 exp_ids = [",".join(map(str, r)) for r in exp_rows]
                 if ids != exp_ids:
                     res.violate("aggregate:wrong-partition-or-order", f"tracer got {ids} expected {exp_ids}; {ctx}")
+                else:
+                    xs_exp = [",".join(repr(xlist[i]) for i in r) for r in exp_rows]
+                    if xs_got != xs_exp or ids2_got != exp_ids:
+                        res.violate(f"aggregate:later-summary-sees-disturbed-rows:{name}", f"after {name}{kw} in the same call a lambda saw x = {xs_got[:6]} rids {ids2_got[:6]}, expected {xs_exp[:6]} / {exp_ids[:6]}; {ctx}")
+                    res.count("post-helper-tracers")
                 ns = [c[1] for c in oc["n"]]
                 ks = [c[1] for c in oc["k"]]
                 if ns != [len(r) for r in exp_rows] or ks != ns or sum(ns) != nrow:
